@@ -576,6 +576,7 @@ class C07(Prop):
         g = gen.G(seed * 1000003 + 7)
         gen.plain_style(g)
         out = []
+        prev_text = None
         for k in range(count_tier(tier, 1500, 40000)):
             a = gen_key_history(g, length=g.r.randint(1, 25))
             n = len(a["segs"])
@@ -592,6 +593,17 @@ class C07(Prop):
                     text = "\n".join(lines)
             nexplicit = sum(1 for s in a["segs"] for kk in s["keys_before"] if kk is not None and kk["iv"] is not None)
             out.append(mk("h", k, "media", hx(text), exp=None if overflow else expected_key_views(a), mseq=a["mseq"] or 0, overflow=overflow, nexplicit=nexplicit))
+            # the same text through a builder that was used before (live polling with one builder) or that carries preset values:
+            # what the text says decides
+            if k % 4 == 0 and not overflow and a["mseq"] is not None:
+                # (a builder keeps what it was given for tags the text does not carry: only texts with their own MEDIA-SEQUENCE tag)
+                if prev_text is not None:
+                    out.append(mk("w", k, "media_twice", hx(prev_text), hx(text), exp=expected_key_views(a), mseq=a["mseq"] or 0, overflow=False, nexplicit=nexplicit, model=False))
+                if a["mseq"] is not None:
+                    preset = "M %d" % g.pick([0, 3, 2680, 2 ** 63])
+                    out.append(mk("q", k, "media_preset", hx(preset), hx(text), exp=expected_key_views(a), mseq=a["mseq"], overflow=False, nexplicit=nexplicit, model=False))
+            if not overflow:
+                prev_text = text
         return out
 
     def judge(self, run, c, m, i):
@@ -839,9 +851,10 @@ class C09(Prop):
     def _bcase(self, n, t, al, durs):
         script = ["Tn %d" % (t * 10 ** 9)] + (["X %d" % al] if al is not None else [])
         for k, d in enumerate(durs):
-            script += ["seg -", "dur %d" % d, "uri s%d.ts" % k, "end push"]
+            # every other duration is set through ExtInf::set_duration on a tag constructed with another value
+            script += ["seg -", ("dur %d" % d) if (n + k) % 2 else ("dur2 %d %d" % ((d * 7 + 4 * 10 ** 9) % (2 ** 64), d)), "uri s%d.ts" % k, "end push"]
         script.append("build")
-        return mk("b", n, "bmedia", hx("\n".join(script)), exp=self._expect(t, al, durs), exact=True, path="builder")
+        return mk("b", n, "bmedia", hx("\n".join(script)), exp=self._expect(t, al, durs), exact=True, path="builder", model=(n + 0) % 2 == 1 and all((n + k) % 2 for k in range(len(durs))))
 
     def judge(self, run, c, m, i):
         agree = (res_kind(m) == res_kind(i)) if m is not None else None
@@ -903,6 +916,11 @@ class C10(Prop):
             if n % 2:
                 a = gen.gen_media(g)
                 out.append(mk("m", n, "media", hx(gen.render_media(a, g)), kind="media"))
+                if len(a["segs"]) >= 2 and n % 3 == 1:
+                    # the same value after segments were removed through the public `segments` field: the text of ANY playlist value
+                    # carries a sound version tag
+                    idx = sorted(g.r.sample(range(len(a["segs"])), g.r.randint(1, len(a["segs"]) - 1)))
+                    out.append(mk("r", n, "media_remove", hx(gen.render_media(a, None)), *idx, kind="media_removed", model=False))
             else:
                 a = gen.gen_master(g)
                 out.append(mk("a", n, "master", hx(gen.render_master(a, g)), kind="master"))
@@ -1388,6 +1406,33 @@ class C17(Prop):
             else:
                 text = gen.render_master(gen.gen_master(g), g)
                 out.append(mk("o", n, "own_master", hx(text), model=False, kind="own"))
+        # playlists built through the builder API (push_segment / segments(), explicit numbers in any call order)
+        for k in range(count_tier(tier, 200, 4000)):
+            gen.plain_style(g)
+            a = gen.gen_media(g, nseg=g.r.randint(1, 5))
+            hist = []
+            for sg in a["segs"]:
+                if sg["map"] is not None and gen.keys_in_effect(hist + sg["keys_before"][: sg["map"]["pos"]]) not in ([], ):
+                    sg["map"] = None
+                hist = gen.keys_in_effect(hist + sg["keys_before"])
+            out.append(mk("p", len(out), "bown", hx(builder_script(a, g)), model=False, kind="bown"))
+            cnt = g.r.randint(1, 5)
+            use_list = g.chance(0.5)
+            m_ = g.r.randint(0, cnt)
+            if use_list:
+                # segments(): explicit numbers 0..m-1 in any order, mixed with implicit ones (placed behind the highest number)
+                calls = list(range(m_)) + [None] * (cnt - m_)
+                g.r.shuffle(calls)
+            else:
+                # push_segment: m implicit pushes first, then the explicit numbers m..cnt-1 in any order
+                rest = list(range(m_, cnt))
+                g.r.shuffle(rest)
+                calls = [None] * m_ + rest
+            script = ["Tn 10000000000"]
+            for j, x in enumerate(calls):
+                script += ["seg -" if x is None else "seg %d" % x, "dur 5000000000", "uri s%d.ts" % j, "end list" if use_list else "end push"]
+            script += (["segments"] if use_list else []) + ["build"]
+            out.append(mk("p", len(out), "bown", hx("\n".join(script)), model=False, kind="bown"))
         # values only the public constructors can build (strings with quotes / line breaks, Number IVs, stale buffers ...)
         for c in api_cases(g, NASTY_STRINGS + [g.qstring() for _ in range(count_tier(tier, 10, 200))], "a", len(out), count_tier(tier, 20, 400)):
             c["meta"]["apikind"] = c["meta"]["kind"]
@@ -1405,6 +1450,13 @@ class C17(Prop):
             return {"agree": None, "ok": ok, "nontrivial": True, "stats": {"api_own": 1},
                     "detail": "" if ok else "%s built through the public API: clone/into_owned is not interchangeable with the original (== %s,%s; content %s vs %s)" % (
                         c["meta"]["apikind"], f["b1"], f["b2"], f["dx"][:200], f["do"][:200])}
+        if kind == "bown":
+            if not (i or "").startswith("ok "):
+                return {"agree": None, "ok": None if res_kind(i) == "err" else False, "nontrivial": False, "detail": "bown: " + res_kind(i)}
+            t = parse_sexp(i)[1]
+            # (== between StableVecs also compares capacity: content and text decide here)
+            ok = unparse(t[3]) == unparse(t[4]) == unparse(t[5]) and unparse(t[6]) == unparse(t[7]) == unparse(t[8])
+            return {"agree": None, "ok": ok, "nontrivial": True, "detail": "" if ok else "clone/into_owned of a BUILT playlist differs from the original in content or text", "stats": {"bown": 1, "bown_eq_%s%s" % (t[1], t[2]): 1}}
         if kind == "own":
             if not (i or "").startswith("ok "):
                 return {"agree": None, "ok": None, "nontrivial": False}
@@ -2220,6 +2272,8 @@ LAW_POOLS = {
     "ExtXSessionData": ['#EXT-X-SESSION-DATA:DATA-ID="a",VALUE="v"', '#EXT-X-SESSION-DATA:DATA-ID="a",URI="v"', '#EXT-X-SESSION-DATA:DATA-ID="a",VALUE="v",LANGUAGE="en"'],
     "StreamData": ["BANDWIDTH=1", "BANDWIDTH=2", 'BANDWIDTH=1,CODECS="a"', "BANDWIDTH=1,RESOLUTION=1x1"],
     "ProtocolVersion": ["1", "2", "7"],
+    "MediaSegment": ["uri a\ndur 1000000000", "uri a\ndur 1000000000\nnum 0", "uri a\ndur 1000000000\nnum 1", "uri b\ndur 1000000000",
+                     "uri a\ndur 2000000000", "uri a\ndur 1000000000\ntitle t", "uri a\ndur 1000000000\ndisc 1"],
 }
 
 
@@ -2268,7 +2322,9 @@ class C19(Prop):
             bad.append("== not symmetric")
         if e_ab == "1" and norm(da) != norm(db):
             bad.append("false equality: a == b but contents differ")
-        if e_ab == "0" and da == db:
+        if e_ab == "0" and da == db and c["meta"]["ty"] != "MediaSegment":
+            # (a segment carries the crate-private flag "number was set explicitly", which no accessor shows: unequal values with the
+            # same observable content are not excluded by the property)
             bad.append("equal contents compare unequal")
         if c_ab != "na":
             rev = {"lt": "gt", "gt": "lt", "eq": "eq"}
@@ -2335,6 +2391,29 @@ def builder_script(a, g, explicit="none"):
     return "\n".join(script)
 
 
+def master_builder_script(a, g, skip_media=False):
+    """a MasterPlaylistBuilder call sequence for the abstract master playlist `a` (tags handed over in text form)"""
+    blocks = []
+    b = ["media " + gen.xmedia_line(m, None) for m in a["media"]]
+    if not skip_media:
+        b.append("set media")
+    blocks.append(b)
+    b = []
+    for v in a["variants"]:
+        ls = gen.variant_lines(v, None)
+        b += ["variant " + ls[0]] if v["kind"] == "iframe" else ["streaminf " + ls[0], "vuri " + ls[1]]
+    blocks.append(b + ["set variants"])
+    blocks.append(["sdata " + gen.sdata_line(d, None) for d in a["sdata"]] + ["set sdata"])
+    blocks.append(["skey " + gen.key_line(k, None).replace("#EXT-X-KEY:", "#EXT-X-SESSION-KEY:", 1) for k in a["skeys"]] + ["set skeys"])
+    blocks.append(["unknown " + u for u in a["unknown"]] + ["set unknown"])
+    if a["indep"]:
+        blocks.append(["indep 1"])
+    if a["start"] is not None:
+        blocks.append(["start #EXT-X-START:TIME-OFFSET=%s%s" % (a["start"][0], ",PRECISE=YES" if a["start"][1] else "")])
+    g.r.shuffle(blocks)
+    return "\n".join([l for b_ in blocks for l in b_] + ["build"])
+
+
 @register
 class C20(Prop):
     pid = "C20"
@@ -2364,6 +2443,27 @@ class C20(Prop):
             text = gen.render_media(a, None)
             out.append(mk("t", n, "media", hx(text), role="text"))
             out.append(mk("b", n, "bmedia", hx(builder_script(a, g)), role="builder", partner="t%d" % n, nseg=len(a["segs"])))
+            n += 1
+        # master playlists: MasterPlaylistBuilder call sequence vs the rendered text (consistent and inconsistent group references;
+        # a builder on which media() is never called has no renditions)
+        for k in range(count_tier(tier, 500, 10000)):
+            gen.plain_style(g)
+            a = gen.gen_master(g)
+            a["version_tag"] = None
+            mut = g.r.randrange(5)
+            if mut == 0:
+                a["media"] = []
+            elif mut == 1 and a["variants"]:
+                v = g.pick(a["variants"])
+                if v["kind"] == "streaminf":
+                    v[g.pick(["audio", "subs"])] = "missing-group"
+                else:
+                    v["sd"]["video"] = "missing-group"
+            elif mut == 2 and a["sdata"]:
+                a["sdata"].append(dict(a["sdata"][0]))
+            skip = (not a["media"]) and g.chance(0.6)
+            out.append(mk("t", n, "master", hx(gen.render_master(a, None)), role="text"))
+            out.append(mk("b", n, "bmaster", hx(master_builder_script(a, g, skip)), role="mbuilder", partner="t%d" % n, ntags=len(a["media"]) + len(a["variants"]), model=False))
             n += 1
         for k in range(count_tier(tier, 500, 10000)):
             cnt = g.r.randint(1, 6)
@@ -2410,6 +2510,19 @@ class C20(Prop):
         if res_kind(i) not in ("ok", "err"):
             return {"agree": agree, "ok": False, "nontrivial": True, "detail": "builder call sequence did not return normally: " + res_kind(i)}
         node = mres(i)
+        if role == "mbuilder":
+            t = run.impl.get(c["meta"]["partner"])
+            tn = mres(t)
+            if (node is None) != (tn is None):
+                return {"agree": None, "ok": False, "nontrivial": True, "detail": "MasterPlaylistBuilder says %s, the parser says %s for the same content" % (res_kind(i), res_kind(t))}
+            if node is None:
+                return {"agree": None, "ok": True, "nontrivial": True, "stats": {"master_both_reject": 1}}
+            same = unparse(first_dump(node)) == unparse(first_dump(tn))
+            re_ = field(node, "re")
+            rt = re_ is not None and re_[1] == "ok" and unparse(re_[2]) == unparse(first_dump(node))
+            ok = same and rt
+            return {"agree": None, "ok": ok, "nontrivial": c["meta"]["ntags"] > 0, "stats": {"master_both_accept": 1},
+                    "detail": "" if ok else "built master playlist differs from the parsed one (same=%s) or does not round-trip (rt=%s)" % (same, rt)}
         if role == "builder":
             t = run.impl.get(c["meta"]["partner"])
             tn = mres(t)
